@@ -136,14 +136,16 @@ def run(tier):
     run = Run(PROP, tier, 'proof')
     spec_selfcheck()
     h = build()
+    msyn = h.monomorphise(['f32', 'f64'], bound='<S: BaseFloat>', method_syntax='only', soft=True)
     mono = h.monomorphise(['f32', 'f64'], bound='<S: BaseFloat>') if tier == 'thorough' else []
     S, inv, meta = facts.extract(PROP, h.src())
-    report_dropped(run, meta)
+    report_dropped(run, meta, h)
     from c17 import check_left
     run_specs(run, S, h, custom={'left': check_left})
     run.floor('roots', len(run.roots), len(h.specs))
     if mono:
         run.notes['monomorphic_instantiations'] = {'types': ['f32', 'f64'], 'roots': len(mono)}
+    run.notes['monomorphic_method_syntax_roots'] = len([n_ for n_ in msyn if n_ in run.roots])
     return run.finish(
         explanation='Constructors, accessors (Index/row/transpose/diagonal/trace), embeddings, all operand forms of M*v, M*M, +, -, neg, scalar *,/,%, the assignment forms, translation/scale constructors (entries and their action on points and vectors) and the Transform methods of Matrix3 (2-D, 3-D) and Matrix4 are summarised from MIR for an abstract S and compared entry by entry with the column-major textbook definitions: (A v)[r] = sum_c A[c][r] v[c], (A B)[c][r] = sum_k A[k][r] B[c][k]. Out-of-range indices must summarise to Panic on every path.',
         trusted_base=['rustc nightly type checking / trait resolution / MIR construction', 'mirsum abstract interpreter: memory/view model for transmute-based Index, scalar-operation models', 'rules/algebra.py normal forms', 'field semantics of + - * / on the abstract scalar; % uninterpreted'],
